@@ -7,6 +7,8 @@
     Polyline.lean  one-pixel polylines = the segment lines, shared joints once
     Joins.lean     the one-pixel outline as drawn by the styled path (thick-segment / join model)
     Arithmetic.lean  the i32 products of `area_doubled` / `contains` do not overflow for |coordinates| <= 8192
+    Generated.lean, GeneratedPolyline.lean  the model REGENERATED from the Rust text (tools/tr_trisrc.py ->
+                   EG/Generated/TriSrc.lean) equals the hand model, function by function; headlines restated over it
   Sub-claims that are not proved are the `-- [V]` lines of those files.
 -/
 import EG.Basic.Core
